@@ -264,3 +264,5 @@ func verifParseYAML(src string) *yaml.Node {
 	}
 	return &n
 }
+
+func verifDebug(label string, s string) { fmt.Printf("VERIF-DEBUG %s %s\n", label, strconv.Quote(s)) }
